@@ -1156,6 +1156,12 @@ func (fc *FnCtx) loopInvariants(li *loopInfo, st *State, phiVals map[*ssa.Phi]Va
 	for _, inv := range li.con.Invs {
 		t, err := se.boolExpr(inv.Expr)
 		if err != nil {
+			if fc.topCtx().loopMisaligned {
+				// the clause does not fit this loop (the loops changed): no invariant rather than no verdict
+				fc.vc.warn("%s: loop %d: clause of contract loop %d does not apply (%v): loop carries no invariant", fc.fn.Name(), li.ordinal, li.con.N, err)
+				li.con = nil
+				return nil, nil, nil
+			}
 			return nil, nil, fmt.Errorf("%s: loop %d invariant: %v", inv.Pos, li.ordinal, err)
 		}
 		out = append(out, t)
